@@ -32,22 +32,22 @@ _lemma('lemma_ascii_roundtrip', {'s': 'str', 'rest': 'bytes'}, [f'len(s) < {U30}
 # ---------------------------------------------------------------------------------------------- writer functions
 CONTRACTS.update({
  'write_struct_uvari': dict(
-    props=['C06', 'C12'],
+    props=['C06', 'C12', 'C05'],
     params={'value': 'int'}, returns='bytes',
     raises={'struct.error': f'value < 0 or value >= {U30}'},
     ensures=[('spec', 'result == enc_uvari(value)'), ('len', 'len(result) == uvari_len(value)')]),
  'write_struct_ascii': dict(
-    props=['C06', 'C12'],
+    props=['C06', 'C12', 'C05'],
     params={'value': 'str'}, returns='bytes',
     raises={'struct.error': f'len(value) >= {U30}', 'UnicodeEncodeError': f'len(value) < {U30} and not all_ascii(value)'},
     ensures=[('spec', 'result == enc_ascii(value)')]),
  'write_struct_status': dict(
-    props=['C06', 'C12'],
+    props=['C06', 'C12', 'C05'],
     params={'value': 'int'}, returns='bytes',
     raises={'ValueError': 'value != 0 and value != 1'},
     ensures=[('spec', 'result == enc_status(value)')]),
  'write_struct_dtime': dict(
-    props=['C06', 'C12'],
+    props=['C06', 'C12', 'C05'],
     params={'date_time': 'opq:datetime'}, returns='bytes',
     raises={'struct.error': 'date_time.astimezone(timezone.utc).year < 1900 or date_time.astimezone(timezone.utc).year > 2155'},
     ensures=[('len', 'len(result) == 8'),
@@ -58,12 +58,12 @@ CONTRACTS.update({
              ('ms-nearest', '-500 <= 1000 * (result[6] * 256 + result[7]) - date_time.astimezone(timezone.utc).microsecond <= 500 '
                             'or (result[6] * 256 + result[7] == 999 and date_time.astimezone(timezone.utc).microsecond >= 999500)')]),
  'write_struct_ident': dict(
-    props=['C06', 'C12', 'C04'],
+    props=['C06', 'C12', 'C04', 'C05'],
     params={'value': 'str'}, returns='bytes',
     raises={'ValueError': 'len(value) > 255', 'UnicodeEncodeError': 'len(value) <= 255 and not all_ascii(value)'},
     ensures=[('spec', 'result == enc_ident(value)')]),
  'write_struct_obname': dict(
-    props=['C06', 'C07', 'C12'],
+    props=['C06', 'C07', 'C12', 'C05'],
     params={'value': ITEM_REF_MODEL}, returns='bytes',
     raises={'RuntimeError': 'value._origin_reference is None',
             'struct.error': f'value._origin_reference is not None and ({OBN_NUM_BAD})',
@@ -77,54 +77,54 @@ _INT_CODES = {'USHORT': ('enc_ushort', 0, 255), 'UNORM': ('enc_unorm', 0, 65535)
               'SSHORT': ('enc_sshort', -128, 127), 'SNORM': ('enc_snorm', -32768, 32767), 'SLONG': ('enc_slong', -2147483648, 2147483647)}
 for _c, (_f, _lo, _hi) in _INT_CODES.items():
     CONTRACTS[f'write_struct[{_c}]'] = dict(
-        target='write_struct', props=['C06', 'C12'],
+        target='write_struct', props=['C06', 'C12', 'C05'],
         params={'representation_code': f'member:{RC}.{_c}', 'value': 'int'}, returns='bytes',
         raises={'struct.error': f'value < {_lo} or value > {_hi}'},
         ensures=[('spec', f'result == {_f}(value)')])
 
 CONTRACTS['write_struct[UVARI]'] = dict(
-    target='write_struct', props=['C06', 'C12'],
+    target='write_struct', props=['C06', 'C12', 'C05'],
     params={'representation_code': f'member:{RC}.UVARI', 'value': 'int'}, returns='bytes',
     raises={'struct.error': f'value < 0 or value >= {U30}'},
     ensures=[('spec', 'result == enc_uvari(value)')])
 CONTRACTS['write_struct[STATUS]'] = dict(
-    target='write_struct', props=['C06', 'C12'],
+    target='write_struct', props=['C06', 'C12', 'C05'],
     params={'representation_code': f'member:{RC}.STATUS', 'value': 'int'}, returns='bytes',
     raises={'ValueError': 'value != 0 and value != 1'},
     ensures=[('spec', 'result == enc_status(value)')])
 CONTRACTS['write_struct[ASCII]'] = dict(
-    target='write_struct', props=['C06', 'C12'],
+    target='write_struct', props=['C06', 'C12', 'C05'],
     params={'representation_code': f'member:{RC}.ASCII', 'value': 'str'}, returns='bytes',
     raises={'struct.error': f'len(value) >= {U30}', 'UnicodeEncodeError': f'len(value) < {U30} and not all_ascii(value)'},
     ensures=[('spec', 'result == enc_ascii(value)')])
 # IDENT: the standard's IDENT has a one-byte (USHORT) length, so at most 255 characters
 CONTRACTS['write_struct[IDENT]'] = dict(
-    target='write_struct', props=['C06', 'C12'],
+    target='write_struct', props=['C06', 'C12', 'C05'],
     params={'representation_code': f'member:{RC}.IDENT', 'value': 'str'}, returns='bytes',
     raises={'ValueError': 'len(value) > 255', 'UnicodeEncodeError': 'len(value) <= 255 and not all_ascii(value)'},
     ensures=[('spec', 'result == enc_ident(value)')])
 for _c, _w in (('FSINGL', 4), ('FDOUBL', 8)):
     CONTRACTS[f'write_struct[{_c}]'] = dict(
-        target='write_struct', props=['C06'],
+        target='write_struct', props=['C06', 'C05'],
         params={'representation_code': f'member:{RC}.{_c}', 'value': 'opq:float'}, returns='bytes',
         raises=({'OverflowError': 'f32_overflow(value)'} if _c == 'FSINGL' else {}),
         ensures=[('width', f'len(result) == {_w}'), ('ieee', f'result == ieee{_w * 8}(value)')])
 CONTRACTS['write_struct[DTIME]'] = dict(
-    target='write_struct', props=['C06'],
+    target='write_struct', props=['C06', 'C05'],
     params={'representation_code': f'member:{RC}.DTIME', 'value': 'opq:datetime'}, returns='bytes',
     raises={'struct.error': 'value.astimezone(timezone.utc).year < 1900 or value.astimezone(timezone.utc).year > 2155'},
     ensures=[('len', 'len(result) == 8')])
 OBN_RAISES = CONTRACTS['write_struct_obname']['raises']
 OBN_BYTES = 'enc_obname(value._origin_reference, value._copy_number, value.name)'
 CONTRACTS['write_struct[OBNAME]'] = dict(
-    target='write_struct', props=['C06', 'C07'],
+    target='write_struct', props=['C06', 'C07', 'C05'],
     params={'representation_code': f'member:{RC}.OBNAME', 'value': ITEM_REF_MODEL}, returns='bytes',
     raises=OBN_RAISES,
     ensures=[('same-bytes-as-definition', f'result == {OBN_BYTES}')])
 _ST = 'value._parent.set_type'
 _T_OK = f'len({_ST}) <= 255 and all_ascii({_ST})'
 CONTRACTS['write_struct_objref'] = dict(
-    props=['C06', 'C07'],
+    props=['C06', 'C07', 'C05'],
     params={'value': ITEM_REF_MODEL}, returns='bytes',
     raises={'ValueError': f'len({_ST}) > 255 or ({_T_OK} and ({OBN_RAISES["ValueError"]}))',
             'UnicodeEncodeError': f'(len({_ST}) <= 255 and not all_ascii({_ST})) or ({_T_OK} and ({OBN_RAISES["UnicodeEncodeError"]}))',
